@@ -125,12 +125,13 @@ def theorems(prop):
         "mask_spec", "mask_spec_bool", "checkMaskL_spec",
         "pton_safe", "v6Loop_safe", "ip4Loop_safe", "partStart_ne_none", "finishShift_safe",
         "pton_uninit_only_after_blank",
-        "star", "cidr4", "wild4", "pton_quad", "ntop_pton", "ntop_ref",
+        "star", "cidr4", "wild4", "wild4_1", "wild4_3", "wild6", "cidr6", "ntop_cidr6", "pton_full_term", "pton_layout_term",
+        "pton_quad", "ntop_pton", "ntop_ref",
         # concrete facts about the unrepaired parser (recorded, not alarmed unless C13 says so)
         "pton_F23", "pton_uninit_witness", "pton_F26_cidr_rejected", "pton_F26_bits_unwritten", "pton_trailing_colon",
         "ptonFixed_F26_cidr", "ptonFixed_F26_plain", "ptonFixed_still_rejects",
     )] + ["Iauthd.Properties.C13_mask", "Iauthd.Properties.C13_mask_judge_on_model", "Iauthd.Properties.C13_safe",
-          "Iauthd.Properties.C13_agree_partial", "Iauthd.Properties.C13_netmask_partial",
+          "Iauthd.Properties.C13_agree_partial", "Iauthd.Properties.C13_netmask", "Iauthd.Properties.C13_netmask_partial",
           "Iauthd.Properties.C13_plain_is_128", "Iauthd.Addr.ntop_pton_wb"]
 
 
@@ -146,7 +147,8 @@ def lean_modules(prop):
     return ["Iauthd.Addr.Model", "Iauthd.Addr.Spec", "Iauthd.Addr.ProofsMask", "Iauthd.Addr.ProofsSafe",
             "Iauthd.Addr.ProofsShift", "Iauthd.Addr.ProofsNtop", "Iauthd.Addr.ProofsText", "Iauthd.Addr.ProofsRef",
             "Iauthd.Addr.ProofsPton", "Iauthd.Addr.ProofsPton4", "Iauthd.Addr.ProofsRound",
-            "Iauthd.Addr.ProofsMaskText", "Iauthd.Addr.Proofs", "Iauthd.Properties." + prop]
+            "Iauthd.Addr.ProofsMaskText", "Iauthd.Addr.ProofsMask6", "Iauthd.Addr.ProofsChars", "Iauthd.Addr.Proofs",
+            "Iauthd.Properties." + prop]
 
 
 def checker_cmd(prop):
